@@ -74,7 +74,10 @@ PLAN = {
         mc=[("MC_Typed.cfg", {"MaxMsgs": 5})],
         sim=[("MC_Typed.cfg", [1], 1, {"MaxActs": 4, "MaxMsgs": 9, "MaxFaults": 4, "MaxBlocks": 3, "Feat": '{"typed", "sfault", "succ", "finish", "ctx", "task"}'})],
         profiles=[dict(feat={"typed", "succ", "finish", "ctx", "task", "run"}, ndest=2, init=[1, 2], sfault=0.35, maxlen=40,
-                       weights={"StartActionT": 3.0, "LogM": 3.0})]),
+                       weights={"StartActionT": 3.0, "LogM": 3.0}),
+                  # dictionaries handed directly to Logger.write while global fields are in force (the defensive copy)
+                  dict(feat={"typed", "succ", "finish", "raw", "dests"}, ndest=3, init=[1], sfault=0.2, maxlen=30,
+                       weights={"AddGlobal": 2.5, "RawWrite": 3.0, "AddDests": 0.3, "RemoveDest": 0.1})]),
 }
 
 SIZES = {"quick": dict(sim=160, rand=500), "thorough": dict(sim=4000, rand=12000)}
